@@ -146,6 +146,22 @@ func init() {
 		Gen:     GenPlacementScript,
 		Oracles: func() []Oracle { return []Oracle{PlacementOracle{}} },
 	}
+	Props["C07"] = PropDef{
+		Gen: func(t *rapid.T, thorough bool) *Script {
+			o := mixedOpts(thorough)
+			o.Faults, o.BindFailures, o.MIG = false, false, false
+			o.Hierarchy = 3
+			var s *Script
+			if chance(t, "pressure", 40) {
+				s = GenPressureScript(t, "C07", "reclaim-pressure", o)
+			} else {
+				s = GenScript(t, "C07", "reclaim-mixed", o)
+			}
+			s.Config.SaturationMultiplier = pick(t, "satmult", "", "1", "1.2", "2")
+			return s
+		},
+		Oracles: func() []Oracle { return []Oracle{&ReclaimOracle{}} },
+	}
 	Props["C18"] = PropDef{
 		Gen:     GenC18Script,
 		Oracles: func() []Oracle { return nil },
